@@ -1,7 +1,7 @@
 HOOK_COMMITS = []
 
 # properties whose checks are integrated (built, run on the repaired tree, fixes applied, findings recorded)
-READY = ["C01", "C02", "C04", "C05", "C06", "C07", "C08", "C09", "C10", "C11", "C12", "C13", "C14", "C15", "C16", "C17", "C18", "C19", "C20"]
+READY = ["C01", "C02", "C03", "C04", "C05", "C06", "C07", "C08", "C09", "C10", "C11", "C12", "C13", "C14", "C15", "C16", "C17", "C18", "C19", "C20"]
 
 ENGINES = [
     {"name": "check", "path": "/verif/check", "serves_properties": [], "kind_free_text": "python driver: overlay+modfile build of harness test binaries against /repo's working tree, sharding, process-death attribution + ddmin, known-finding confirmation tier, evidence"},
